@@ -7,7 +7,7 @@ claimed = {
  "C16": ("fault_enumeration",
          "deterministic simulation: complete single-fault sweep (io-error, crash) of each operation's storage-call trace over seeded starting states",
          "Every storage call of every mutating operation (record, annotate, propagation entry, State.Commit, Apply, Attestations.Commit, ReconcileStaging) is failed and crashed in turn from seeded starting states (empty, first-ever, established, staging ahead, policy ahead, diverged, attestations present); log validity is judged by an independent walker, managed-ref consistency and retry-equivalence by comparing with the uninterrupted run, crash verdicts by a cache-less observer on a fork. Complete within each sampled (state, operation); which states are sampled is seeded search.",
-         "SimStore stands in for Git storage (Commit split into read/object/compare-and-set as in gitinterface/commit.go); single-fault model; power-loss of un-fsynced objects is not modelled.",
+         "SimStore stands in for Git storage (Commit split into read/object/compare-and-set as in gitinterface/commit.go); a real-git slice (3 of 16 workers) fails or crashes after the k-th git subprocess of the same operations on a real repository, so gitinterface's own compare-and-set, ResetDueToError and DeleteReference are under test; single-fault model; power-loss of un-fsynced objects is not modelled.",
          "DESIGN.md §6 C16"),
  "C17": ("exploration",
          "deterministic simulation: seeded scheduler over goroutines parked at every reference operation; independent walker + porcupine linearizability check",
